@@ -7,6 +7,7 @@
 -/
 import EinoV.Model.Engine
 import EinoV.Spec.DagWF
+import EinoV.Model.C02Workflow
 
 namespace EinoV.Engine
 namespace DagRun
@@ -111,6 +112,28 @@ structure DagWF2 {V} (r : Runner V) : Prop where
   pc : PredSuccC r
   pd : PredSuccD r
   p4 : ∀ n, lookupList n r.ctrlPreds ≠ [] → n ∈ akeys (initChans r)
+
+
+/-! ### the eager loop: the states it passes through, the completions it has processed -/
+
+/-- the states the eager run loop passes through (each constructor is one branch of `runEager` /
+    `eagerLoop` that goes on) -/
+inductive EReach {V} (ops : ValOps V) (r : Runner V) (pick : Pick V) (x : V) :
+    Chans V → List (Key × V) → List (List (Key × V)) → List Key → Prop
+  | init (cm : Chans V) (ts : List (Key × V))
+      (h : calcNext ops r (initChans r) [(START, x)] = .ok (cm, .tasks ts)) : EReach ops r pick x cm ts [ts] []
+  | step (cm cm' : Chans V) (running ts : List (Key × V)) (bs : List (List (Key × V))) (comp : List Key)
+      (t : Key × V) (d : Done V)
+      (hprev : EReach ops r pick x cm running bs comp)
+      (hp : running[pick running % running.length]? = some t)
+      (hc : collectOne (execOne r t) = .ok d)
+      (hn : calcNext ops r cm [d] = .ok (cm', .tasks ts)) :
+      EReach ops r pick x cm' (running.eraseIdx (pick running % running.length) ++ ts) (bs ++ [ts]) (comp ++ [t.1])
+
+/-- the completions that have been processed: START's, and the outputs of the submitted tasks
+    whose key is in `comp` -/
+def histC {V} (r : Runner V) (x : V) (bs : List (List (Key × V))) (comp : List Key) : List (Done V) :=
+  (START, x) :: (bs.flatten.filter (fun t => comp.contains t.1)).filterMap (outOf r)
 
 
 /-! ### exact inputs -/
